@@ -237,26 +237,57 @@ func ruleC12(w *World, r *Report) {
 			continue
 		}
 		fn := fnShort(fi)
-		found := false
-		for _, f := range fi.facts {
-			if f.Op != "false" && f.Op != "true" {
-				continue
+		// isMatch: "an element of the submitted list matches RulePattern"
+		isMatch := func(f Fact) bool {
+			if f.Op != "true" {
+				return false
 			}
 			x := f.L
 			if x.Op != "extract" || x.Name != "0" || x.Args[0].Op != "call" || x.Args[0].Name != "regexp.MatchString" {
-				continue
+				return false
 			}
 			call := x.Args[0]
 			ps, _ := constOf(call.Args[0])
-			if ps != rulePat || !call.Args[1].Contains(t.subjectHas) || call.Args[1].Op != "index" && !strings.Contains(call.Args[1].String(), "[") {
-				continue
-			}
-			// the edge on which the rule does NOT match
-			succ := f.Succ
-			if f.Op == "true" {
-				succ = 1 - f.Succ
-			}
-			if failsOnly(fi, f.If.Block().Succs[succ]) {
+			return ps == rulePat && call.Args[1].Contains(t.subjectHas) && (call.Args[1].Op == "index" || strings.Contains(call.Args[1].String(), "["))
+		}
+		found := false
+		// the check may sit in the function itself or in a same-package helper it calls;
+		// the branch may test MatchString directly or a boolean helper that implies it
+		for _, sc := range k.scopes(fi, 1) {
+			for _, f := range sc.Fi.facts {
+				if f.Op != "true" {
+					continue
+				}
+				hit := isMatch(f)
+				if !hit {
+					for _, g := range sc.Fi.impliedFacts([]Fact{f}) {
+						if isMatch(g) {
+							hit = true
+						}
+					}
+				}
+				if !hit {
+					continue
+				}
+				// the edge on which the rule does NOT match leads only to failure ...
+				if !failsOnly(sc.Fi, f.If.Block().Succs[1-f.Succ]) {
+					continue
+				}
+				// ... and a failure of the helper is a failure of the function
+				if oc, ok := sc.Outer.(*ssa.Call); sc.Outer != nil {
+					if !ok {
+						continue
+					}
+					prop := true
+					for _, rt := range fi.Returns() {
+						if rt.Kind != RetFail && !fi.ErrNilDominates(oc, rt.Instr.Block()) {
+							prop = false
+						}
+					}
+					if !prop {
+						continue
+					}
+				}
 				found = true
 			}
 		}
